@@ -10,6 +10,7 @@ import I18n.Props.C18
 import I18n.Props.C19
 import I18n.Props.C20
 import I18n.Lemmas.PipelineReal
+import I18n.Model.XmlEncode
 /-!
 # C01 — every input file is handled without crash, hang or abnormal exit   (PARTIAL: see below)
 
@@ -46,6 +47,9 @@ as a composition, with the exception-to-tag mapping READ FROM THE SOURCE on ever
   C20's fragment total; expat raises only `ExpatError`; checkers get the message's strings — `worldOk_live` builds it from the
   generated tables under two third-party contracts), `Po.CodecsBehave`, `C09.Latin1OK`.  `pybraceCheckString_nocrash` /
   `perlbraceCheckString_nocrash` replace the C13 hypothesis of `braceCheckString_nocrash`.
+* §8: the data tables the tool trusts as obligations over regenerated files (`registry_parses_strictly` …).  §9: the encode step
+  in front of expat (`check_fragment_sane`, `check_fragment_strict_refuted`, `xml_encode_site_pin`) and the modelling gap
+  `TextIsScalar` (`model_text_is_scalar`, `strict_encode_never_fails_on_model_text`).
 * every line printed comes from `Tag.format`, whose grammar and cleanliness are C02's theorems (`line_is_tag_line`).
 
 REFUTED on the real code, not exhibited by any model here (the models recurse structurally): a plural expression nested deeper
@@ -936,8 +940,11 @@ theorem real_po_nocrash (w : Meta.Real.World) (hw : Meta.Real.WorldOk w) (env : 
     0, empty stderr, every stdout line the rendering of a tag call.  No hypothesis about any loader or stage is left; what remains
     is about the world outside the file: `WorldOk` (shipped plural registry, codecs and expat raise their documented exceptions
     only, format checkers see the message's strings), `Po.CodecsBehave` and `C09.Latin1OK` (ISO-8859-1 decodes everything; a
-    codec the tool classified as ASCII-compatible raises only `UnicodeError`).  Outside every model, as before: recursion depth
-    (open finding), time, the OS. -/
+    codec the tool classified as ASCII-compatible raises only `UnicodeError`).  IMPLICIT in the types, stated in §9: `TextIsScalar` —
+    the loaded file's strings are `List Char`, i.e. Unicode scalar values; a file whose declared codec (`raw_unicode_escape`,
+    `unicode_escape`) yields lone surrogates is outside this theorem and is decided by the check's codec-exotica sweep (that is
+    where /repo 14c240b was found: `check_fragment`'s own strict encode, modelled in `Model/XmlEncode.lean`).  Outside every
+    model, as before: recursion depth (open finding), time, the OS. -/
 theorem pipeline_nocrash_unconditional (fmt : Line Meta.Real.RTag → String) (db : Mo.CodecDB) (hl : C09.Latin1OK db)
     (env : Po.Env) (hc : Po.CodecsBehave env) (files : List RealArg) (hw : ∀ a ∈ files, a.worldOk)
     (lang : Cli.LangOpt) (hlang : lang ≠ .invalid) (jobs : Nat) :
@@ -1044,6 +1051,98 @@ theorem timezone_table_sane :
     total on what `find_unusual_characters` reports) -/
 theorem message_tables_sane (xml : Tags.Str → Msg.XmlVerdict) (hx : ∀ s, xml s ≠ .other) : Spec.MessageRules.Sane (Msg.liveEnv xml) :=
   C16.live_env_sane xml hx
+
+/-! ## 9. text that is not Unicode scalar values: the encode step in front of expat, and the modelling gap `TextIsScalar`
+
+A Python `str` may hold lone surrogates; two codecs the tool accepts as ASCII-compatible (`raw_unicode_escape`,
+`unicode_escape`) produce them from plain ASCII bytes (`\ud800`).  `WorldOk.menv_sane` says "`xml.check_fragment` raises nothing
+but `xml.SyntaxError`" and used to be justified by "expat raises only `ExpatError`" — but `check_fragment` ENCODES the string
+before expat sees it, and with the strict handler that encode raised `UnicodeEncodeError` (finding fixed in /repo 14c240b).  The
+step is modelled in `Model/XmlEncode.lean` over code-point lists; which handler the source uses is read from the source
+(`Generated.ExcMap.encodeSites`).
+
+**The gap, stated.**  `Meta.Obs`, the PO loader model, the format parsers and everything composed in
+`pipeline_nocrash_unconditional` hold text as `List Char`, and a Lean `Char` is a scalar value: those models CANNOT represent a
+string with a lone surrogate, so every theorem about them silently assumes `TextIsScalar` of every string of the loaded file
+(`model_text_is_scalar`, `strict_encode_never_fails_on_model_text`: on model text the strict encode cannot fail — the model could
+never have exhibited the crash).  The check enforces the assumption from the other side: every file whose loaded strings are
+not all scalar is counted, kept out of the string correspondences and decided by the falsifier alone (codec-exotica sweep). -/
+
+open XmlEncode in
+/-- `encode(strict)` fails exactly on strings with a surrogate -/
+theorem encode_strict_none_iff (s : List Nat) : encode .strict s = none ↔ ∃ c ∈ s, isSurrogate c = true := by
+  induction s with
+  | nil => simp [encode]
+  | cons c cs ih =>
+    simp only [encode, encodeCp]
+    cases hc : isSurrogate c with
+    | true => simp [hc]
+    | false =>
+      cases he : encode .strict cs with
+      | none => simp [(ih.1 he)]
+      | some y =>
+        simp only [Bool.false_and, Bool.false_eq_true, if_false, List.mem_cons]
+        constructor
+        · intro h; cases h
+        · rintro ⟨d, hd | hd, hs⟩
+          · subst hd; rw [hc] at hs; cases hs
+          · have := ih.2 ⟨d, hd, hs⟩; rw [he] at this; cases this
+
+open XmlEncode in
+/-- `encode(surrogatepass)` is total -/
+theorem encode_surrogatepass_total (s : List Nat) : ∃ bytes, encode .surrogatepass s = some bytes := by
+  induction s with
+  | nil => exact ⟨[], rfl⟩
+  | cons c cs ih =>
+    obtain ⟨y, hy⟩ := ih
+    refine ⟨pattern c ++ y, ?_⟩
+    simp [encode, encodeCp, hy]
+
+open XmlEncode in
+/-- **`check_fragment` as the source has it now raises nothing but `xml.SyntaxError`**, for every string of code points, provided
+    expat does on every byte string (its documented behaviour) — the contract `WorldOk.menv_sane` needs, with the tool's own
+    encode step inside the statement -/
+theorem check_fragment_sane (expat : List UInt8 → Msg.XmlVerdict) (hx : ∀ bytes, expat bytes ≠ .other) (s : List Nat) :
+    checkFragment .surrogatepass expat s ≠ .other := by
+  obtain ⟨y, hy⟩ := encode_surrogatepass_total s
+  simp only [checkFragment, hy]
+  exact hx y
+
+open XmlEncode in
+/-- **refuted for the strict handler** (the code before 14c240b): a string with a lone surrogate makes `check_fragment` raise
+    a foreign exception whatever expat would have said — witness `"a \ud800"`, replayed from corpus/C01 -/
+theorem check_fragment_strict_refuted (expat : List UInt8 → Msg.XmlVerdict) :
+    checkFragment .strict expat [0x61, 0x20, 0xD800] = .other := by rfl
+
+/-- PIN (source): the one `.encode` in front of expat uses `surrogatepass`; every other `.encode` with a raising handler works on
+    tool data (the DTD literal, the registry's `characters`, iconv's input built from them), never on text of the checked file -/
+theorem xml_encode_site_pin :
+    ("lib/xml.py", "check_fragment.ee_handler", "s", "UTF-8", "surrogatepass") ∈ encodeSites ∧
+    ((encodeSites.filter fun e => e.2.2.2.2 == "strict" || e.2.2.2.2 == "<dynamic>").map fun e => (e.1, e.2.1)) =
+      [("lib/xml.py", "<module>"), ("lib/iconv.py", "_encode_cli"), ("lib/encodings.py", "iconv_encoding.encode"),
+       ("lib/ling.py", "Language.get_unrepresentable_characters"), ("lib/ling.py", "Language.get_unrepresentable_characters")] := by
+  decide
+
+/-- the generated message environment with `check_fragment` (encode step included) as its XML oracle is sane -/
+theorem message_tables_sane_with_encode (expat : List UInt8 → Msg.XmlVerdict) (hx : ∀ bytes, expat bytes ≠ .other) :
+    Spec.MessageRules.Sane (Msg.liveEnv (XmlEncode.checkFragment .surrogatepass expat)) :=
+  C16.live_env_sane _ (check_fragment_sane expat hx)
+
+/-- every string the composed model can hold is scalar … -/
+theorem model_text_is_scalar (t : List Char) : XmlEncode.TextIsScalar (t.map Char.toNat) := by
+  intro c hc
+  obtain ⟨ch, _, rfl⟩ := List.mem_map.1 hc
+  exact ch.valid
+
+/-- … so on model text even the strict encode cannot fail: the `List Char` models could never have exhibited the crash -/
+theorem strict_encode_never_fails_on_model_text (t : List Char) : XmlEncode.encode .strict (t.map Char.toNat) ≠ none := by
+  intro h
+  obtain ⟨c, hc, hs⟩ := (encode_strict_none_iff _).1 h
+  obtain ⟨ch, _, rfl⟩ := List.mem_map.1 hc
+  have hv : ch.toNat.isValidChar := ch.valid
+  simp only [XmlEncode.isSurrogate, Bool.and_eq_true, decide_eq_true_eq] at hs
+  unfold Nat.isValidChar at hv
+  rcases hv with hv | ⟨hv, _⟩ <;> omega
 
 /-! ## what is printed -/
 
